@@ -54,6 +54,21 @@ def tie_at_trigger(hist):
                 for seq, t, kind in mh.exits:
                     if kind == 'exc':
                         trig.append((t, _origin(hist, sr, mh.nid)))
+        # the last regular completion closes the run and cancels the forever
+        # jobs: what a forever job (or anything below it) does in that very
+        # instant may or may not still happen
+        if sr.fin is not None and not sr.degenerate:
+            for mh in sr.mh:
+                if not mh.spec['forever']:
+                    continue
+                for nid in hist.subtree_ids(mh.nid, include_self=True):
+                    h = hist.nodes[nid]
+                    if h.is_sched:
+                        continue
+                    if any(t == sr.fin[1] for _, t in h.enters) or any(
+                            t == sr.fin[1] and kind != 'cancelled'
+                            for _, t, kind in h.exits):
+                        return True
         if not trig:
             continue
         sub = [hist.nodes[n] for n in hist.subtree_ids(sid)]
@@ -456,4 +471,79 @@ def c10c(case, stats):
             "nested tree gives {} {!r}, flattened graph {} {!r}".format(
                 run_a.outcome, _v(run_a.value), run_b.outcome,
                 _v(run_b.value))))
+    return out, run_a, run_b
+
+
+# ------------------------------------------------------------------ C12 twin
+
+def permuted(top, rng):
+    """the same tree with the members of every scheduler inserted in another
+    (still requirement-compatible) order and built in another style"""
+    top = S.clone(top)
+    for node, _, _ in S.walk(top):
+        if not S.is_sched(node) or len(node['members']) < 2:
+            continue
+        n = len(node['members'])
+        req = {i: set() for i in range(n)}
+        for a, b in node['edges']:
+            req[b].add(a)
+        order, placed = [], set()
+        while len(order) < n:
+            ready = [i for i in range(n) if i not in placed
+                     and req[i] <= placed]
+            pick = rng.choice(ready)
+            order.append(pick)
+            placed.add(pick)
+        newpos = {old: new for new, old in enumerate(order)}
+        node['members'] = [node['members'][old] for old in order]
+        node['edges'] = sorted([newpos[a], newpos[b]]
+                               for a, b in node['edges'])
+        node['build'] = rng.choice(('ctor', 'add', 'scheduler_kw'))
+    return top
+
+
+def c12p(case, stats):
+    """C12: 'the order in which jobs were added never changes when jobs run'
+    (unwindowed schedulers): same per-job timeline under another insertion
+    order, construction style and set iteration order"""
+    import random
+    top, knobs = case['spec'], twin_knobs(case['knobs'])
+    if _has(top, lambda n: S.is_sched(n) and n['window']):
+        return [], None, None
+    rng = random.Random(case['aux'].get('perm_seed', 0))
+    top_b = permuted(top, rng)
+    knobs_b = dict(knobs)
+    knobs_b['salt'] = knobs['salt'] ^ 0x5bd1e995
+    run_a = run_spec(top, knobs)
+    run_b = run_spec(top_b, knobs_b)
+    for run in (run_a, run_b):
+        if run.harness_error:
+            raise RuntimeError(run.harness_error)
+    if not returned(run_a) or not returned(run_b):
+        if returned(run_a) != returned(run_b):
+            return [Violation(
+                'C12', 'insertion-order:termination', 'twin',
+                "{} vs {} under another insertion order".format(
+                    run_a.outcome, run_b.outcome))], run_a, run_b
+        return [], run_a, run_b
+    hist_a, hist_b = History(run_a), History(run_b)
+    if tie_at_trigger(hist_a) or tie_at_trigger(hist_b):
+        stats['skipped_tie_at_trigger'] = \
+            stats.get('skipped_tie_at_trigger', 0) + 1
+        return [], run_a, run_b
+    stats['insertion_twin_judged'] = stats.get('insertion_twin_judged', 0) + 1
+    base = knobs['base']
+    tl_a, tl_b = timeline(hist_a, base), timeline(hist_b, base)
+    out = []
+    for nid in tl_a:
+        if tl_a[nid] != tl_b[nid]:
+            out.append(Violation(
+                'C12', 'insertion-order:job-timing', 'twin',
+                "{} runs (enter, exit, kind) = {} but {} when jobs are added "
+                "in another order".format(nid, tl_a[nid], tl_b[nid])))
+            break
+    if verdicts(hist_a) != verdicts(hist_b):
+        out.append(Violation(
+            'C12', 'insertion-order:verdict', 'twin',
+            "{} vs {}".format(verdicts(hist_a), verdicts(hist_b))))
     return out, run_a, run_b
